@@ -347,16 +347,20 @@ def correspond(ctx):
         kind = m[0]
         if kind == "read":
             _, v, base, s = m
-            want = "%d %d" % (v, base)
-            if got != want:
-                is_wrap = v >= 2**159 and got == "%d %d" % (wrap_T(160, True, v), base)
-                if s == WITNESS_READ:
-                    pass                      # reported end to end by the probe program (key "read <2^160>")
-                elif is_wrap and reader_witness_fails_pre(il, impl_lines, WITNESS_READ):
-                    dist["attributed:read " + WITNESS_READ] = dist.get("attributed:read " + WITNESS_READ, 0) + 1
-                else:
-                    viol(line, "literal reader: %s reads as %s, its value is %d" % (s, got, v), {"case": line, "implementation": got, "oracle": want, "model": mod})
-            if mod != got.split(" ")[0]:
+            if base == 10 and v >= 2**159:
+                # like Lua: a decimal integer literal too large for an integer is the correctly rounded float
+                r = round_binary(Fraction(v), 53, -1022, 1023)
+                want = None if r is None else "%016x %d" % (f64_bits(float(r)), base)
+                mm = re.match(r"^float:\S+:([0-9a-f]{16}) (\d+)$", got)
+                gotn = None if not mm else "%s %s" % (mm.group(1), mm.group(2))
+                modwant = "float"
+            else:
+                want = "%d %d" % (wrap_T(160, True, v) if base != 10 else v, base)
+                gotn = got
+                modwant = got.split(" ")[0]
+            if want is not None and gotn != want:
+                viol(line, "literal reader: %s reads as %s, expected %s" % (s, got, want), {"case": line, "implementation": got, "oracle": want, "model": mod})
+            elif mod != modwant:
                 viol("model-mismatch:read", "model of the literal reader differs on %s: model %s, implementation %s" % (line, mod, got),
                      {"case": line, "model": mod, "implementation": got, "no_longer_checks": "correspondence stream C14/read"}, failing=False, kind="correspondence")
             elif v > 255:
@@ -388,15 +392,15 @@ def correspond(ctx):
             if got.startswith("int "):
                 _, tname, val = got.split(" ")
                 b, sg, lk = tinfo(tname)
-                inr = tmin(b, sg) <= v <= tmax(b, sg)
-                if v >= 2**159 and int(val) == wrap_T(160, True, v) and reader_witness_fails_pre(il, impl_lines, WITNESS_READ):
-                    dist["attributed:read " + WITNESS_READ] = dist.get("attributed:read " + WITNESS_READ, 0) + 1
-                    continue
-                if int(val) != v or (not inr and base == 10):
+                inr = tmin(b, sg) <= v <= tmax(b, sg) or (base != 10 and sfx == "-")
+                vexp = wrap_T(160, True, v) if base != 10 else v      # hex/binary spellings wrap modulo 2^160 (and, once accepted, agree with Lua modulo 2^64)
+                if int(val) != vexp or (not inr and base == 10):
                     viol(line, "literal typing: value %d typed %s with value %s" % (v, tname, val), {"case": line, "implementation": got})
                 modwant = "int %d %s %d" % (b, "true" if sg else "false", lk)
             elif got.startswith("float "):
                 modwant = "float"
+                if base == 10 and v >= 2**159 and mod == "float":
+                    pass
                 if base == 10 and MININT <= v <= MAXINT and sfx == "-" and des == "-":
                     viol(line, "literal typing: integer literal %d in int64 range became a float" % v, {"case": line, "implementation": got})
             else:
